@@ -274,7 +274,7 @@ def relevant(flags, spec):
             if any(f == 'prop:' + p or f.startswith('prop:' + p + ':') or (':' in p and f.startswith('prop:' + p)) for p in spec['prop']):
                 out.append(f)
         elif f.startswith('corr:'):
-            if f in spec['corr'] or any(f.startswith(c + ':') for c in spec['corr']):
+            if f in spec['corr'] or any(f.startswith(c + ':') or f.startswith(c + '-') for c in spec['corr']):
                 out.append(f)
         elif f.startswith(('driver:', 'model:')):
             out.append(f)
